@@ -179,7 +179,8 @@ class _NS:
         self.T = [list(r) for r in rows]
 
 
-AL_RXNS = [("EX_1", (-1000.0, 1000.0), True), ("I_1", (-10.0, 10.0), False), ("I_2", (0.0, 5.0), False), ("I_3", (-7.0, 0.0), False), ("EX_2", (0.0, 40.0), True), ("I_4", (-3.0, 25.0), False)]
+# the largest magnitude among the bounds is the *lower* bound of an internal reaction that is written backwards
+AL_RXNS = [("EX_1", (-30.0, 20.0), True), ("I_1", (-10.0, 10.0), False), ("I_2", (0.0, 5.0), False), ("I_3", (-70.0, 0.0), False), ("EX_2", (0.0, 40.0), True), ("I_4", (-3.0, 25.0), False)]
 AL_ROWS = [[1.0, -1.0, 0.0, 2.5], [0.0, 1e-12, 3.0, -1.0], [-0.5, 0.0, 0.0, 0.0]]
 
 
@@ -213,7 +214,9 @@ def check_add_loopless(ctx, rule: str) -> None:
         return
     cons = {c.name: c for c in model.solver.constraints.items}
     vars_ = {v.name: v for v in model.solver.variables.items}
-    big_m = max(max(abs(x) for x in b) for _, b, _ in AL_RXNS)
+    # any M that covers the bounds of the internal reactions does; the same M has to be used throughout
+    need_m = max(max(abs(x) for x in b) for _, b, boundary in AL_RXNS if not boundary)
+    big_m = None
     problems = []
     internal = [rid for rid, _, boundary in AL_RXNS if not boundary]
     ind_of, dg_of = {}, {}
@@ -234,11 +237,16 @@ def check_add_loopless(ctx, rule: str) -> None:
                 k = t[fwd]
                 a = others[0]
                 lo, hi = (c.lb, c.ub) if k > 0 else (None if c.ub is None else -c.ub, None if c.lb is None else -c.lb)
-                if lo is not None and hi is not None and abs(t[a] / k + big_m) < 1e-9 and abs(lo / abs(k) + big_m) < 1e-9 and abs(hi) < 1e-9 and vars_.get(a) is not None and vars_[a].type == "binary":
+                m_here = -t[a] / k
+                if lo is not None and hi is not None and m_here > 0 and abs(lo / abs(k) + m_here) < 1e-9 and abs(hi) < 1e-9 and vars_.get(a) is not None and vars_[a].type == "binary" and (big_m is None or abs(m_here - big_m) < 1e-9):
                     ok_onoff = a
+                    big_m = m_here
         if ok_onoff is None:
-            problems.append(f"internal reaction {rid}: no constraint -M(1-a) <= v <= M a with a binary indicator and M = {big_m:g} (the largest bound of the model)")
+            problems.append(f"internal reaction {rid}: no constraint -M(1-a) <= v <= M a with a binary indicator (and the M used for the other reactions)")
             continue
+        if big_m < need_m - 1e-9:
+            problems.append(f"the big-M of the on/off constraints is {big_m:g}, but an internal reaction has a bound of magnitude {need_m:g} (I_3 runs backwards down to -70): its flux is clamped to [-M, M], so feasible cycle-free fluxes are cut off")
+            break
         ind_of[rid] = ok_onoff
         # delta_g range: G + (M+1) a in [1, M]
         found = None
@@ -272,4 +280,4 @@ def check_add_loopless(ctx, rule: str) -> None:
     if problems:
         ctx.bad(rule, fn, "add_loopless formulation", "; ".join(problems[:2]))
     else:
-        ctx.ok(rule, fn, "add_loopless formulation", f"{len(internal)} internal and {len(AL_RXNS) - len(internal)} boundary reactions, {len(AL_ROWS)} basis vectors: indicator / on-off / driving-force range per internal reaction with M over all bounds, null-space rows over the right driving forces")
+        ctx.ok(rule, fn, "add_loopless formulation", f"{len(internal)} internal and {len(AL_RXNS) - len(internal)} boundary reactions, {len(AL_ROWS)} basis vectors: indicator / on-off / driving-force range per internal reaction with one M that covers every bound of the internal reactions, null-space rows over the right driving forces")
